@@ -34,6 +34,25 @@ fn check_index(sym: &[u8], text: &[u8], pat: &[u8], q: u32, max_count: usize) ->
             for m in &ms {
                 if m.pattern.stop > pat.len() || m.text.stop > text.len() || m.count == 0 { return Err(format!("matches(): bad match {:?}", m)); }
             }
+            // matches(pattern, min_count) is exactly: per diagonal, the hull of the q-gram hits on it, reported iff at least min_count hits
+            // (a hit = an indexed text position of the pattern q-gram; q-grams above max_count are not indexed)
+            let nq = pat.len() + 1 - qu;
+            let mut diag: std::collections::BTreeMap<isize, (usize, usize, usize, usize, usize)> = std::collections::BTreeMap::new();
+            for i in 0..nq {
+                let occ: Vec<usize> = if text.len() >= qu { (0..text.len() + 1 - qu).filter(|&j| text[j..j + qu] == pat[i..i + qu]).collect() } else { vec![] };
+                if occ.len() > max_count { continue; }
+                for p in occ {
+                    let e = diag.entry(p as isize - i as isize).or_insert((i, i + qu, p, p + qu, 0));
+                    e.1 = i + qu; e.3 = p + qu; e.4 += 1;
+                }
+            }
+            for mc in [1usize, 2, nq.saturating_sub(1).max(1), nq, nq + 1] {
+                let mut want: Vec<(usize, usize, usize, usize, usize)> = diag.values().cloned().filter(|d| d.4 >= mc).collect();
+                want.sort();
+                let mut got: Vec<(usize, usize, usize, usize, usize)> = idx.matches(&pat, mc).iter().map(|m| (m.pattern.start, m.pattern.stop, m.text.start, m.text.stop, m.count)).collect();
+                got.sort();
+                if got != want { return Err(format!("matches(pattern, min_count={}) = {:?} (pattern start, stop, text start, stop, count), by definition {:?}", mc, got, want)); }
+            }
             if max_count == usize::MAX {
                 let ems = idx.exact_matches(&pat);
                 for m in &ems {
